@@ -234,7 +234,15 @@ def precnut(vc):
 def rotr(vc):
     import datetime
     if not vc.symbolic:
-        vc.ensure("O-C04-rotr.def", True)
+        # native replay: the real function against rot3(-GAST) assembled from the real helpers with the arguments the contract names
+        from resonaate.physics.transforms.reductions import getRotR
+        from resonaate.physics.time.conversions import dayOfYear, greenwichApparentTime
+        from resonaate.physics.maths import rot3
+        d = datetime.datetime(2019, 3, 4, 5, 6, 7, 250000) + datetime.timedelta(seconds=vc.int("secs", 0, 86400 * 600))
+        dut1, eqe = vc.real("dut1", -0.9, 0.9), vc.real("eqe", -1e-4, 1e-4)
+        el = dayOfYear(d.year, d.month, d.day, d.hour, d.minute, d.second + d.microsecond / 1e6 + dut1) - 1
+        want = rot3(-1.0 * greenwichApparentTime(d.year, el, eqe))
+        vc.ensure("O-C04-rotr.def", bool(np.allclose(getRotR(d, dut1, eqe), want, atol=1e-13, rtol=0)))
         return
     vc.stub(MA + "rot3", rot_stub(3))
     calls = {}
